@@ -243,8 +243,17 @@ def run(repo: Repo) -> Result:
         )
     if not ok_join:
         res.add("C05-ESCAPE", tls.qual, "list-join", "lists must be joined with Markup('').join(soft_str(itm) ...) under autoescape (escapes every non-Markup item)", tls.file, tls.line)
-    first = body[0] if body else None
-    if not (isinstance(first, ast.If) and "hasattr(val, '__html__')" in text(first.test) and "isinstance(val, str)" in text(first.test)):
+    # the branch that lets a value through unconverted (`pass`), wherever the chain sits (it may be
+    # wrapped in a try): its test is `isinstance(val, str) or (autoescape and hasattr(val, "__html__"))`
+    passthrough = [n for n in ast.walk(tls.node) if isinstance(n, ast.If) and len(n.body) == 1 and isinstance(n.body[0], ast.Pass)]
+
+    def pass_test_ok(t) -> bool:
+        if not (isinstance(t, ast.BoolOp) and isinstance(t.op, ast.Or) and len(t.values) == 2):
+            return False
+        parts = {text(v) for v in t.values}
+        return "isinstance(val, str)" in parts and bool(parts & {"autoescape and hasattr(val, '__html__')", "hasattr(val, '__html__') and autoescape"})
+
+    if not (len(passthrough) == 1 and pass_test_ok(passthrough[0].test)):
         res.add("C05-ESCAPE", tls.qual, "html-protocol", "values are passed through only if they are str or (under autoescape) implement __html__", tls.file, tls.line)
 
     # ---- C05-MARKUP ---------------------------------------------------------------
